@@ -169,7 +169,12 @@ def build_harness(src_rel, flavor="asan", extra_flags=(), extra_link=(), extra_s
     inc = include_dir()
     hdeps = [os.path.join(VERIF, "harness", f) for f in sorted(os.listdir(os.path.join(VERIF, "harness")))
              if f.endswith(".hh") or f.endswith(".h")]
-    dep_blob = b"".join(read(p) for p in hdeps + [os.path.join(VERIF, d) for d in deps] +
+    implicit = []
+    if src_rel.startswith("shim/"):
+        implicit.append(os.path.join(VERIF, "shim", "shim.hh"))
+    if src_rel.startswith("fuzz/"):
+        implicit.append(os.path.join(VERIF, "fuzz", "fuzz_common.hh"))
+    dep_blob = b"".join(read(p) for p in hdeps + implicit + [os.path.join(VERIF, d) for d in deps] +
                         [os.path.join(VERIF, s) for s in extra_srcs])
     objs = build_lib(flavor, lib_defs) if with_lib else []
     key = sha(" ".join(flags), " ".join(extra_link), headers_digest(), read(src), dep_blob, " ".join(objs))
